@@ -165,6 +165,7 @@ Theorem C19_measure_stddev : forall vs ds, dyadics vs = Some ds -> vs <> [] ->
   E <= 0 /\ (forall d, In d ds -> E <= snd d) /\ 0 <= V /\ 0 < n * n * 2 ^ (- 2 * E) /\
   agg_stddev vs = Some (ASqrt V (n * n * 2 ^ (- 2 * E))).
 Proof. exact agg_stddev_spec. Qed.
+Print Assumptions C19_measure_stddev.
 Theorem C19_measure_stddev_meaning : forall x num den, valid_binary prec emax x = true ->
   (sqrt_is x num den = true <->
    match x with
@@ -177,6 +178,19 @@ Theorem C19_measure_stddev_meaning : forall x num den, valid_binary prec emax x 
    end).
 Proof. exact sqrt_is_meaning. Qed.
 Print Assumptions C19_measure_stddev_meaning.
+(* ... and the bracket singles out the NEAREST float: for an accepted x = m 2^e > 0 and any other binary64 g >= 0 the midpoint
+   (x + g)/2 lies on the far side of sqrt(V/D) — g > x: V/D <= ((x+g)/2)^2;  g < x: ((x+g)/2)^2 <= V/D — so x is at least as close
+   to the square root as g (and a negative g is farther than 0).  No square roots, no reals: F = x 2^1074, G = g 2^1074.
+   Excluded (`_off_binade_boundary`): m = 2^52 above the subnormal range, where the float below x is only ulp/2 away and the
+   bracket — the model's test — admits it too. *)
+Theorem C19_measure_stddev_nearest_off_binade_boundary : forall m e num den g, 0 < den ->
+  valid_binary prec emax (S754_finite false m e) = true -> (Zpos m <> 2 ^ 52 \/ e = -1074) ->
+  sqrt_is (S754_finite false m e) num den = true ->
+  valid_binary prec emax g = true -> 0 <= sfZs g ->
+  let F := sfZs (S754_finite false m e) in let G := sfZs g in
+  (F < G -> num * 2 ^ 2150 <= (F + G) ^ 2 * den) /\ (G < F -> (F + G) ^ 2 * den <= num * 2 ^ 2150).
+Proof. exact sqrt_is_nearest. Qed.
+Print Assumptions C19_measure_stddev_nearest_off_binade_boundary.
 (* non-vacuity: 0.1, 0.2 and the int 4 — mean 43/30 up to the representation error of the inputs, variance bracket met by pstdev's float *)
 Example C19_measure_average_example :
   let vs := [CNum (NFlt (S754_finite false 7205759403792794 (-56))); CNum (NFlt (S754_finite false 7205759403792794 (-55))); CNum (NInt 4)] in
